@@ -156,6 +156,36 @@ func factsMiner() {
 	}
 	emit("/-- `submitBlock` in %s polls `quit` while it waits and compares `BestBlockHash()` with the header's previous block before `ProcessBlock` -/\ndef minerSubmitChecksQuitAndTip : Bool := %v", d,
 		strings.Contains(src, "case <-quit:") && strings.Contains(src, "BestBlockHash()") && strings.Index(src, "BestBlockHash()") < strings.Index(src, "ProcessBlock("))
+	// the record of mined heights only grows: the package never deletes from it nor replaces it after construction
+	p := loadPkg(d)
+	shrinks := 0
+	for _, f := range p.files {
+		ast.Inspect(f, func(n ast.Node) bool {
+			switch x := n.(type) {
+			case *ast.CallExpr:
+				if id, ok := x.Fun.(*ast.Ident); ok && id.Name == "delete" && len(x.Args) == 2 && strings.Contains(exprText(p, x.Args[0]), "minedHeight") {
+					shrinks++
+				}
+			case *ast.AssignStmt:
+				for _, l := range x.Lhs {
+					if sel, ok := l.(*ast.SelectorExpr); ok && sel.Sel.Name == "minedHeight" {
+						shrinks++
+					}
+				}
+			}
+			return true
+		})
+	}
+	emit("/-- nothing in %s deletes from `minedHeight` or assigns the field anew (it is set once, in the constructor's literal) -/\ndef minerMinedHeightOnlyGrows : Bool := %v", d, shrinks == 0)
+}
+
+func exprText(p *pkgInfo, e ast.Expr) string {
+	pos, end := p.fset.Position(e.Pos()), p.fset.Position(e.End())
+	b, err := os.ReadFile(pos.Filename)
+	if err != nil {
+		return ""
+	}
+	return string(b[pos.Offset:end.Offset])
 }
 
 // factsConfig: the constants of the capacity configuration arithmetic (C15).
